@@ -229,12 +229,18 @@ theorem alike_stepOp (h : Alike c₁ c₂) (r : Realm) (op : Op) :
     rw [stepOp_join, stepOp_join]
     have e : (withCfg c₁ r).cleanDetails details = (withCfg c₂ r).cleanDetails details :=
       withCfg_cleanDetails (c := c₁) (r := withCfg c₂ r) h.sameMeta details
-    rw [e]; rfl
+    rw [e]
+    show (if (k == metaKey || r.clients.any (fun c => c.key == k)) = true then _ else _) =
+      withCfg c₁ (if (k == metaKey || r.clients.any (fun c => c.key == k)) = true then _ else _)
+    split <;> rfl
   | msg k m => exact alike_recvMsg h r k m
   | buffer k => rfl
   | drop k =>
     rw [stepOp_drop, stepOp_drop]
-    show (if r.ending.contains k then _ else _) = withCfg c₁ (if r.ending.contains k then _ else _)
+    show (if (!r.clients.any (fun c => c.key == k)) = true then _ else if r.ending.contains k then _ else _) =
+      withCfg c₁ (if (!r.clients.any (fun c => c.key == k)) = true then _ else if r.ending.contains k then _ else _)
+    split
+    · rfl
     split <;> rfl
   | stall k => rfl
   | resume k => rfl
